@@ -4,6 +4,7 @@ import (
 	"bytes"
 	"fmt"
 	"sort"
+	"strconv"
 	"strings"
 	"sync"
 	"testing"
@@ -12,6 +13,11 @@ import (
 
 	"pgregory.net/rapid"
 
+	"github.com/hashicorp/memberlist"
+	"google.golang.org/protobuf/proto"
+
+	amcluster "github.com/prometheus/alertmanager/cluster"
+	"github.com/prometheus/alertmanager/cluster/clusterpb"
 	"github.com/prometheus/alertmanager/featurecontrol"
 	"github.com/prometheus/alertmanager/matcher/compat"
 	"github.com/prometheus/alertmanager/verifhook"
@@ -64,7 +70,7 @@ type cluster struct {
 	msgs  int
 	snaps [][2][]byte // per instance: silences, nflog snapshot for the next start
 	wg    sync.WaitGroup
-	stats struct{ sent, dropped, duplicated, blocked, storm int }
+	stats struct{ sent, dropped, duplicated, blocked, storm, reliable, reliableFailed int }
 	// identical broadcasts per instance: an entry is broadcast when it is logged and once more by every instance
 	// that merges it for the first time (again after a restart rolled the log back); far beyond that is a
 	// re-gossip loop, which the network cuts so that the run ends and the judge can report it
@@ -167,6 +173,46 @@ func (c *cluster) send(from int, kind string, b []byte) {
 	}
 }
 
+// sendReliable is the per-peer reliable (TCP) send of an oversized update: it fails when the peer is down or the link is
+// cut, otherwise the update arrives 50 ms later (no loss, no duplication).
+func (c *cluster) sendReliable(from, j int, kind string, b []byte) error {
+	msg := append([]byte(nil), b...)
+	c.mtx.Lock()
+	dst, up := c.insts[j], c.link[from][j]
+	c.stats.reliable++
+	c.mtx.Unlock()
+	if dst == nil || !up {
+		c.mtx.Lock()
+		c.stats.reliableFailed++
+		c.mtx.Unlock()
+		return fmt.Errorf("peer %d unreachable", j)
+	}
+	epoch := dst.epoch
+	c.wg.Go(func() {
+		time.Sleep(50 * time.Millisecond)
+		in := c.alive(j, epoch)
+		if in == nil {
+			return
+		}
+		var err error
+		if kind == "nfl" {
+			at := time.Now()
+			for _, e := range decodeNflog(msg) {
+				c.sim.mtx.Lock()
+				c.sim.trace.Arrivals = append(c.sim.trace.Arrivals, Arrival{Inst: j, At: at, GroupKey: e.GroupKey, Receiver: e.Receiver, Idx: e.Idx, Timestamp: e.Timestamp})
+				c.sim.mtx.Unlock()
+			}
+			err = in.nflog.Merge(msg)
+		} else {
+			err = in.silences.Merge(msg)
+		}
+		if err != nil {
+			c.sim.errf("merge %s into %d: %v", kind, j, err)
+		}
+	})
+	return nil
+}
+
 func (c *cluster) start(i, epoch int, spec *Config, sil, nfl []byte) error {
 	in, err := c.sim.newInstanceWith(i, epoch, spec, sil, nfl, func(in *Instance) {
 		in.clustered = true
@@ -175,11 +221,40 @@ func (c *cluster) start(i, epoch int, spec *Config, sil, nfl []byte) error {
 	if err != nil {
 		return err
 	}
+	// the real cluster.Channel decides between gossip (small updates: the harness network with its fates) and the
+	// reliable per-peer send (oversized updates: delivered unless the peer is down or the link is cut, in which case the
+	// send fails); every other instance is listed as a peer, a crashed one included (memberlist keeps listing it
+	// for a while)
+	peers := func() []*memberlist.Node {
+		var ns []*memberlist.Node
+		for j := 0; j < c.sc.N; j++ {
+			if j != i {
+				ns = append(ns, &memberlist.Node{Name: strconv.Itoa(j)})
+			}
+		}
+		return ns
+	}
+	gossip := func(b []byte) {
+		var p clusterpb.Part
+		if err := proto.Unmarshal(b, &p); err == nil {
+			c.send(i, p.Key, p.Data)
+		}
+	}
+	reliable := func(n *memberlist.Node, b []byte) error {
+		j, _ := strconv.Atoi(n.Name)
+		var p clusterpb.Part
+		if err := proto.Unmarshal(b, &p); err != nil {
+			return err
+		}
+		return c.sendReliable(i, j, p.Key, p.Data)
+	}
+	chN := amcluster.NewChannel("nfl", gossip, peers, reliable, nopLog, in.stopc, in.reg)
+	chS := amcluster.NewChannel("sil", gossip, peers, reliable, nopLog, in.stopc, in.reg)
 	in.nflog.SetBroadcast(func(b []byte) {
 		c.recordLogWrite(i, b)
-		c.send(i, "nfl", b)
+		chN.Broadcast(b)
 	})
-	in.silences.SetBroadcast(func(b []byte) { c.send(i, "sil", b) })
+	in.silences.SetBroadcast(chS.Broadcast)
 	c.mtx.Lock()
 	c.insts[i] = in
 	c.mtx.Unlock()
@@ -195,7 +270,9 @@ func (c *cluster) recordLogWrite(i int, b []byte) {
 			continue
 		}
 		c.sim.mtx.Lock()
-		c.sim.trace.LogWrites = append(c.sim.trace.LogWrites, LogWrite{Inst: i, At: now, GroupKey: e.GroupKey, Receiver: e.Receiver, Idx: e.Idx, Firing: e.Firing, Resolved: e.Resolved})
+		part, _ := proto.Marshal(&clusterpb.Part{Key: "nfl", Data: b})
+		c.sim.trace.LogWrites = append(c.sim.trace.LogWrites, LogWrite{Inst: i, At: now, GroupKey: e.GroupKey, Receiver: e.Receiver, Idx: e.Idx, Firing: e.Firing, Resolved: e.Resolved,
+			Oversize: amcluster.OversizedMessage(part)})
 		c.sim.mtx.Unlock()
 	}
 }
@@ -354,7 +431,8 @@ func runCluster(sc *ClusterScenario, tr *Trace) {
 	}
 	c.wg.Wait()
 	synctest.Wait()
-	tr.Net = map[string]int{"sent": c.stats.sent, "dropped": c.stats.dropped, "duplicated": c.stats.duplicated, "blocked_by_link": c.stats.blocked, "storm": c.stats.storm}
+	tr.Net = map[string]int{"sent": c.stats.sent, "dropped": c.stats.dropped, "duplicated": c.stats.duplicated, "blocked_by_link": c.stats.blocked, "storm": c.stats.storm,
+		"reliable": c.stats.reliable, "reliable_failed": c.stats.reliableFailed}
 }
 
 // ------------------------------------------------------------ judge
@@ -369,6 +447,7 @@ type ClusterStats struct {
 	ResolvedObligations int
 	ConditionalChecked  int
 	Senders             int
+	ReliableChecked     int // oversized log entries x reachable peers whose arrival was checked
 }
 
 // instance lifetime model
@@ -775,6 +854,52 @@ func JudgeCluster(sc *ClusterScenario, tr *Trace) ([]pbt.Violation, ClusterStats
 	}
 	for _, g := range tr.PushPullGaps {
 		add(pbt.V("pushpull-incomplete", "%s", g))
+	}
+	// an oversized log entry goes to every peer over the reliable path: it must arrive at each peer that is up and
+	// reachable while it is sent, whatever happened to earlier sends or to the other peers
+	linkUpThroughout := func(a, b int, t1, t2 time.Time) bool {
+		up := true
+		for si, stp := range sc.Steps {
+			if si >= len(tr.StepAt) || stp.Op != "link" || !((stp.A == a && stp.B == b) || (stp.A == b && stp.B == a)) {
+				continue
+			}
+			at := tr.StepAt[si]
+			if at.After(t2) {
+				break
+			}
+			if at.Before(t1) {
+				up = stp.Up
+			} else {
+				return false // the link changed inside the window
+			}
+		}
+		return up
+	}
+	for _, w := range tr.LogWrites {
+		if !w.Oversize {
+			continue
+		}
+		t2 := w.At.Add(time.Second)
+		if t2.After(tr.End) || !upThroughout(w.Inst, w.At.Add(-time.Nanosecond), t2) {
+			continue
+		}
+		for j := 0; j < sc.N; j++ {
+			if j == w.Inst || !upThroughout(j, w.At.Add(-time.Nanosecond), t2) || !linkUpThroughout(w.Inst, j, w.At.Add(-time.Nanosecond), t2) {
+				continue
+			}
+			st.ReliableChecked++
+			got := false
+			for _, ar := range tr.Arrivals {
+				if ar.Inst == j && ar.GroupKey == w.GroupKey && ar.Receiver == w.Receiver && ar.Idx == w.Idx && ar.Timestamp.Equal(w.At) && !ar.At.After(t2) {
+					got = true
+					break
+				}
+			}
+			if !got {
+				add(pbt.V("reliable-update-not-delivered", "instance %d logged an oversized entry for %s %s/%d at %s; instance %d was up and reachable from then on, but the entry had not arrived one second later (reliable sends so far: %d, failed: %d)",
+					w.Inst, w.GroupKey, w.Receiver, w.Idx, w.At.Format(tf), j, tr.Net["reliable"], tr.Net["reliable_failed"]))
+			}
+		}
 	}
 	if tr.Net != nil && tr.Net["storm"] > 0 {
 		add(pbt.V("gossip-storm", "one instance broadcast the same notification-log or silence update more than %d times (%d broadcasts cut): updates are re-gossiped without end instead of once per first merge", gossipStormLimit, tr.Net["storm"]))
